@@ -264,9 +264,7 @@ def eval_cases(suite, imports, chk, terms, shard=300, timeout=900):
     """Evaluate `run_cases (chk) [terms…]` inside Coq by vm_compute.
     Returns dict(disagree=[global idx], propfail=[global idx], errors=[text])."""
     os.makedirs(CASES, exist_ok=True)
-    for old in glob.glob(os.path.join(CASES, "%s_*" % suite)):
-        with contextlib_suppress():
-            os.remove(old)
+    suite = "%s_p%d" % (suite, os.getpid())   # concurrent runs of one property must not clobber each other
     shards = []
     for k in range(0, len(terms), shard):
         path = os.path.join(CASES, "%s_%d.v" % (suite, k // shard))
